@@ -191,6 +191,9 @@ class Builder(object):
                 CheckQuotaTask(),
             ]
         )
+        # A stop requested while the application is still starting up
+        # (Ctrl+C during plugin loading or URL import) must not begin the crawl
+        download_pipeline.skippable = True
 
         download_stop_pipeline = Pipeline(
             AppSource(app_session),
